@@ -5,6 +5,7 @@ import (
 	"go/constant"
 	"go/token"
 	"go/types"
+	"sort"
 	"os"
 	"strings"
 
@@ -1468,4 +1469,147 @@ func ruleC10ConstantIndex(c *Ctx) {
 		})
 	}
 	c.R.Floor(rule, "constant-index accesses to strings and slices", n, 4)
+}
+
+func init() {
+	p := Properties["C10"]
+	p.Rules = append(p.Rules, Rule{"C10/finite-bounds", ruleC10FiniteBounds})
+}
+
+// big.Rat.SetFloat64 returns nil for a number that is not finite. Where the evaluator hands its result on (to Cmp),
+// the float must be finite: it comes from the instance (a JSON number is finite) or from a keyword of the schema that
+// the structure check of Resolve has tested with math.IsInf / math.IsNaN (a Schema built in Go can hold +Inf in
+// Minimum; a JSON document cannot).
+func ruleC10FiniteBounds(c *Ctx) {
+	const rule = "C10/finite-bounds"
+	// the float fields of Schema whose finiteness Resolve tests
+	tested := map[string]bool{}
+	for _, fn := range c.Closure(rule, "RES").Minus(c.Closure(rule, "EV")).Sorted() {
+		core.EachInstr(fn, func(i ssa.Instruction) {
+			call, ok := i.(*ssa.Call)
+			if !ok {
+				return
+			}
+			if k := core.CalleeKey(&call.Call); k != "math.IsInf" && k != "math.IsNaN" {
+				return
+			}
+			for _, v := range c.floatFieldSources(call.Call.Args[0], 6) {
+				tested[v] = true
+			}
+		})
+	}
+	n := 0
+	for _, fn := range c.Closure(rule, "EV").Sorted() {
+		core.EachInstr(fn, func(i ssa.Instruction) {
+			call, ok := i.(*ssa.Call)
+			if !ok || core.CalleeKey(&call.Call) != "math/big.Rat.SetFloat64" || call.Referrers() == nil {
+				return
+			}
+			used := false
+			for _, r := range *call.Referrers() {
+				switch r.(type) {
+				case *ssa.Call, *ssa.Return, *ssa.Store, *ssa.Phi:
+					used = true
+				}
+			}
+			if !used {
+				return // the receiver is used instead, which is never nil
+			}
+			n++
+			fields := c.floatFieldSources(call.Call.Args[1], 6)
+			if len(fields) == 0 {
+				c.R.OK(rule, fmt.Sprintf("%s:SetFloat64#%d", core.FuncName(fn), n), c.pos(call), "the number converted does not come from a keyword of the schema")
+				return
+			}
+			var missing []string
+			for _, f := range fields {
+				if !tested[f] {
+					missing = append(missing, f)
+				}
+			}
+			sort.Strings(missing)
+			c.R.Check(len(missing) == 0, rule, fmt.Sprintf("%s:SetFloat64#%d", core.FuncName(fn), n), c.pos(call), "every keyword whose value is converted to a rational here is tested for finiteness by Resolve",
+				fmt.Sprintf("the result of big.Rat.SetFloat64 is handed on without a nil test, and it is nil for +Inf, -Inf and NaN; the number comes from %v, which Resolve does not test with math.IsInf / math.IsNaN: Validate panics (nil pointer) for a Schema built in Go with such a bound, e.g. Schema{Minimum: Ptr(math.Inf(1))}", missing))
+		})
+	}
+	if n == 0 {
+		c.R.OK(rule, "none", "", "the evaluator hands no result of big.Rat.SetFloat64 on")
+	}
+}
+
+// floatFieldSources: the float-valued fields of Schema that v can come from (through loads, parameters of local
+// closures and transparent helpers).
+func (c *Ctx) floatFieldSources(v ssa.Value, depth int) []string {
+	seen := map[ssa.Value]bool{}
+	out := map[string]bool{}
+	var walk func(v ssa.Value, d int)
+	walk = func(v ssa.Value, d int) {
+		if v == nil || d == 0 || seen[v] {
+			return
+		}
+		seen[v] = true
+		switch x := v.(type) {
+		case *ssa.UnOp:
+			if x.Op == token.MUL {
+				if fa, ok := x.X.(*ssa.FieldAddr); ok {
+					if name := c.fieldName(fa.X.Type(), fa.Field); strings.HasPrefix(name, "Schema.") {
+						if pt, isPtr := core.StructField(fa.X.Type(), fa.Field).Type().Underlying().(*types.Pointer); isPtr {
+							if b, ok := pt.Elem().Underlying().(*types.Basic); ok && b.Info()&types.IsFloat != 0 {
+								out[name] = true
+							}
+						}
+					}
+				}
+				if cell := resolveCell(x.X); cell != nil {
+					for _, sv := range cellStores(cell) {
+						walk(sv, d-1)
+					}
+				}
+			}
+			walk(x.X, d-1)
+		case *ssa.Parameter:
+			// a parameter of a closure or helper: the arguments at its call sites
+			fn := x.Parent()
+			idx := -1
+			for k, p := range fn.Params {
+				if p == x {
+					idx = k
+				}
+			}
+			for _, f := range c.P.Funcs {
+				core.EachInstr(f, func(i ssa.Instruction) {
+					call, ok := i.(ssa.CallInstruction)
+					if !ok || idx < 0 {
+						return
+					}
+					callee := call.Common().StaticCallee()
+					if callee == nil && !call.Common().IsInvoke() {
+						for _, src := range traceSources(call.Common().Value) {
+							if mc, ok := src.(*ssa.MakeClosure); ok && mc.Fn == ssa.Value(fn) {
+								callee = fn
+							}
+						}
+					}
+					if callee == fn && idx < len(call.Common().Args) {
+						walk(call.Common().Args[idx], d-1)
+					}
+				})
+			}
+		case *ssa.Phi:
+			for _, e := range x.Edges {
+				walk(e, d-1)
+			}
+		case *ssa.Convert:
+			walk(x.X, d-1)
+		case *ssa.ChangeType:
+			walk(x.X, d-1)
+		}
+	}
+	walk(v, depth)
+	var names []string
+	for k := range out {
+		names = append(names, k)
+	}
+	sort.Strings(names)
+	return names
 }
